@@ -8,7 +8,7 @@ git -C /repo worktree add -q --detach $WT HEAD || exit 2
 trap 'git -C /repo worktree remove --force $WT >/dev/null 2>&1' EXIT
 git -C $WT apply $PATCH || { echo "== $PATCH: patch does not apply"; exit 2; }
 cd /verif
-VERIF_REPO=$WT VERIF_EVIDENCE_DIR=/tmp/ev_try_$$ timeout ${TRY_TIMEOUT:-1500} ./check $PROP --no-validate "$@" > /tmp/try_$PROP.$$.txt 2>&1
+VERIF_REPO=$WT VERIF_EVIDENCE_DIR=/tmp/ev_try_$$ timeout ${TRY_TIMEOUT:-1500} ./check $PROP ${TRY_VALIDATE:---no-validate} "$@" > /tmp/try_$PROP.$$.txt 2>&1
 rc=$?
 echo "== $PATCH on $PROP: exit=$rc"
 grep -E "^VIOLATION|^violation|^BROKEN|^KNOWN|quick:|thorough:" /tmp/try_$PROP.$$.txt | cut -c1-400
